@@ -56,6 +56,11 @@ class PathCtx:
         self.assumptions = []
         self.axioms = []
         self.axioms_weak = []
+        self.ax_owner = []
+        self.ax_names = []
+        self.sym_gen = {}
+        self._gen = 0
+        self._last_was_axiom = False
         self.has_weak = False
         self.obligations = []  # (term, message, where)
         self.defs = {}
@@ -77,20 +82,24 @@ class PathCtx:
         self.lifted_cache = {}
 
     # ---- symbols -------------------------------------------------------
-    def fresh(self, name):
+    def _new_name(self, name):
         i = self.counter.get(name, 0)
         self.counter[name] = i + 1
-        return z3.Real("%s!%d" % (name, i))
+        nm = "%s!%d" % (name, i)
+        if self._last_was_axiom:
+            self._gen += 1
+            self._last_was_axiom = False
+        self.sym_gen[nm] = self._gen
+        return nm
+
+    def fresh(self, name):
+        return z3.Real(self._new_name(name))
 
     def fresh_int(self, name):
-        i = self.counter.get(name, 0)
-        self.counter[name] = i + 1
-        return z3.Int("%s!%d" % (name, i))
+        return z3.Int(self._new_name(name))
 
     def fresh_bool(self, name):
-        i = self.counter.get(name, 0)
-        self.counter[name] = i + 1
-        return z3.Bool("%s!%d" % (name, i))
+        return z3.Bool(self._new_name(name))
 
     def axiom(self, t, weak=None):
         """defining axiom of a symbol; `weak` is an implied, solver-friendlier consequence used
@@ -100,6 +109,40 @@ class PathCtx:
         if weak is not None:
             self.has_weak = True
         self.solver.add(t)
+        # ownership: the axiom defines the most recently created symbol generation it mentions
+        self._last_was_axiom = True
+        names = set(n for n in T.free_vars(t) if "!" in n)
+        gens = [self.sym_gen[n] for n in names if n in self.sym_gen]
+        if gens:
+            g = max(gens)
+            owners = set(n for n in names if self.sym_gen.get(n) == g)
+        else:
+            owners = set(names)
+        self.ax_owner.append(owners)
+        self.ax_names.append(names)
+
+    def cone(self, goal_terms, weak=True):
+        """definitional cone of influence: the axioms defining (transitively) the symbols the
+        goal mentions.  Dropping the other hypotheses only weakens them, so unsat stays a proof."""
+        needed = set()
+        for g in goal_terms:
+            if isinstance(g, z3.ExprRef):
+                needed |= set(n for n in T.free_vars(g) if "!" in n)
+        for a in self.assumptions:
+            needed |= set(n for n in T.free_vars(a) if "!" in n)
+        inc = [False] * len(self.axioms)
+        changed = True
+        while changed:
+            changed = False
+            for i, own in enumerate(self.ax_owner):
+                if not inc[i] and own & needed:
+                    inc[i] = True
+                    new = self.ax_names[i] - needed
+                    if new:
+                        needed |= new
+                    changed = True
+        src = self.axioms_weak if weak else self.axioms
+        return [src[i] for i in range(len(src)) if inc[i]]
 
     def assume(self, t):
         if isinstance(t, bool):
